@@ -536,6 +536,9 @@ class HTMLBinaryInputStream(HTMLUnicodeInputStream):
         if newEncoding.name in ("utf-16be", "utf-16le"):
             newEncoding = lookupEncoding("utf-8")
             assert newEncoding is not None
+        elif newEncoding.name == "x-user-defined":
+            newEncoding = lookupEncoding("windows-1252")
+            assert newEncoding is not None
         if newEncoding == self.charEncoding[0]:
             self.charEncoding = (self.charEncoding[0], "certain")
         else:
@@ -589,6 +592,8 @@ class HTMLBinaryInputStream(HTMLUnicodeInputStream):
 
         if encoding is not None and encoding.name in ("utf-16be", "utf-16le"):
             encoding = lookupEncoding("utf-8")
+        elif encoding is not None and encoding.name == "x-user-defined":
+            encoding = lookupEncoding("windows-1252")
 
         return encoding
 
